@@ -4,20 +4,23 @@ from .pack import job
 
 def jobs(tier):
     J = []; ck = ('c04',)
+    T = tier == 'thorough'
     for B in (7, 10, 20):
         for n in (2, 3, 4):
             J.append(job('bc', n, B=B, pres='list', lo=1, checks=ck))
-    J.append(job('bc', 5, B=10, pres='list', lo=1, order='desc', checks=ck))
-    J.append(job('bc', 5, B=7, pres='list', lo=1, order='desc', checks=ck))
+    for B in (7, 10, 12, 15, 20):
+        for n in (5, 6, 7):
+            J.append(job('bc', n, B=B, pres='list', lo=1, order='desc', checks=ck))
     J.append(job('bc', 4, B=100, pres='list', lo=1, order='desc', checks=ck))
-    if tier == 'thorough':
-        J.append(job('bc', 5, B=20, pres='list', lo=1, checks=ck))
-        for B in (10, 20):
-            J.append(job('bc', 6, B=B, pres='list', lo=1, order='desc', checks=ck))
-        J.append(job('bc', 7, B=20, pres='list', lo=1, order='desc', checks=ck))
-        J.append(job('bc', 7, B=10, pres='list', lo=1, order='desc', checks=ck))
+    J.append(job('bc', 8, B=7, pres='list', lo=1, order='desc', checks=ck))
+    J.append(job('bc', 8, B=15, pres='list', lo=1, order='desc', checks=ck))
+    if T:
+        J.append(job('bc', 5, B=20, pres='list', lo=1, checks=ck)); J.append(job('bc', 5, B=12, pres='list', lo=1, checks=ck))
+        for B in (10, 12, 20):
+            J.append(job('bc', 8, B=B, pres='list', lo=1, order='desc', checks=ck, mandatory=(B != 20)))
+        J.append(job('bc', 9, B=7, pres='list', lo=1, order='desc', checks=ck, mandatory=False))
     return J
 
 
-ASSUMPTIONS = ['S1 numpy shim', 'S2 exact arithmetic', 'concrete bin sizes 7, 10, 20, 100; item values symbolic in 1..binsize']
-OUTSIDE = ['more than 5 (quick) / 7 (thorough) items', 'other bin sizes', 'named items (known finding, see C07)']
+ASSUMPTIONS = ['S1 numpy shim', 'S2 exact arithmetic', 'concrete bin sizes 7, 10, 12, 15, 20, 100; item values symbolic in 1..binsize; 5 or more items presented in non-increasing order (the algorithm sorts first)']
+OUTSIDE = ['more than 8 items (9 attempted in the thorough tier)', 'other bin sizes', 'named items (known finding, see C07)']
